@@ -468,9 +468,47 @@ Definition new_expected (i : input) (acc_doc : bool) : bool :=
   | Some _, Some o => acc_doc && wellformed_b (other_kind (i_kind i)) o
   end.
 
+(* hand-written alphabets (NOT taken from Generated.v): what an accepted store
+   name and an accepted scope may consist of, whatever the regular
+   expressions of the source say now *)
+Definition fn_byte_b (c : N) : bool :=
+  ((48 <=? c) && (c <=? 57) || (65 <=? c) && (c <=? 90) || (97 <=? c) && (c <=? 122)
+   || (c =? 95) || (c =? 45) || (c =? 46))%N.
+
+Definition safe_component_b (nm : string) : bool :=
+  negb (String.eqb nm "") && negb (String.eqb nm ".") && negb (String.eqb nm "..")
+  && forallb fn_byte_b (bytes nm).
+
+(* domain[:port]: letters, digits, '-', '.', ':' *)
+Definition domain_byte_b (c : N) : bool :=
+  ((48 <=? c) && (c <=? 57) || (65 <=? c) && (c <=? 90) || (97 <=? c) && (c <=? 122)
+   || (c =? 45) || (c =? 46) || (c =? 58))%N.
+
+(* repository path: lower-case letters, digits, '.', '_', '-', '/' *)
+Definition repo_byte_b (c : N) : bool :=
+  ((48 <=? c) && (c <=? 57) || (97 <=? c) && (c <=? 122)
+   || (c =? 95) || (c =? 45) || (c =? 46) || (c =? 47))%N.
+
+Definition store_safe_b (st : string) : bool :=
+  match cut_byte ":" st with Some (_, nm) => safe_component_b nm | None => false end.
+
+Definition scope_alpha_b (sc : string) : bool :=
+  String.eqb sc wildcard
+  || match cut_byte "/" sc with
+     | Some (dm, r) => negb (String.eqb dm "") && negb (String.eqb r "")
+                       && forallb domain_byte_b (bytes dm) && forallb repo_byte_b (bytes r)
+     | None => false
+     end.
+
+Definition strings_safe_b (k : kind) (d : doc) : bool :=
+  forallb (fun s => forallb store_safe_b (s_stores s)
+                    && match k with OCI => forallb scope_alpha_b (s_scopes s) | Blob => true end)
+          (d_stmts d).
+
 (* which clause of the oracle fails first (0 = none): 1 accept/reject on the
    struct, 2 the JSON route, 3 construction of a verifier, 4 integrity of the
-   yielded levels *)
+   yielded levels, 5 an accepted store name is not a safe path component or an
+   accepted scope leaves the alphabet of repository paths *)
 Definition fp (i : input) (o : obs) : N :=
   let a := accept_expected (i_kind i) (i_doc i) in
   if negb (Bool.eqb (is_ok (o_val o)) a) then 1
@@ -479,6 +517,9 @@ Definition fp (i : input) (o : obs) : N :=
   else if is_ok (o_val o)
        && negb (match i_doc i with Some d => levels_ok (d_stmts d) (o_levels o) | None => false end)
   then 4
+  else if is_ok (o_val o)
+       && negb (match i_doc i with Some d => strings_safe_b (i_kind i) d | None => false end)
+  then 5
   else 0.
 
 Definition spec_ok (i : input) (o : obs) : bool := (fp i o =? 0)%N.
